@@ -1,10 +1,145 @@
 import Driver.Util
 open Lean Replicat
 namespace Driver
+open Replicat.SigV4
+
+def realCrypto : Crypto where
+  hmac := Sha256.hmac
+  sha := fun m => Sha256.hexOf (Sha256.sha256 m)
+  hexOf := Sha256.hexOf
+
+def jhex (b : Bytes) : Json := Json.str (hex b)
+
+def getPairs (j : Json) (k : String) : Except String (List (Bytes × Bytes)) := do
+  let a ← getArr j k
+  a.toList.mapM fun x => do
+    let p ← x.getArr?
+    match p.toList with
+    | [n, v] => pure (← unhex (← n.getStr?), ← unhex (← v.getStr?))
+    | _ => throw "pair expected"
+
+def jpairs (ps : List (Bytes × Bytes)) : Json := Json.arr (ps.map fun p => Json.arr #[jhex p.1, jhex p.2]).toArray
+
+def getOptBytes (j : Json) (k : String) : Except String (Option Bytes) :=
+  match j.getObjVal? k with
+  | .ok (Json.str t) => do pure (some (← unhex t))
+  | _ => pure none
+
+/-- `query`: explicit pairs, or — when `list` is present — the dict `_list_objects` builds for (`token`, `prefix`) -/
+def getQuery (j : Json) : Except String (List (Bytes × Bytes)) := do
+  match j.getObjVal? "list" with
+  | .ok _ => pure (listQuery (← getOptBytes j "token") (← getBytes j "prefix"))
+  | .error _ => getPairs j "query"
+
+/-- `clock`: [year, month, day, hour, minute, second] → (`x-amz-date`, scope date); else explicit `amz_date` / `date` -/
+def getDates (j : Json) : Except String (Bytes × Bytes) := do
+  match j.getObjVal? "clock" with
+  | .ok _ =>
+    match (← getNatList j "clock") with
+    | [y, mo, d, h, mi, s] =>
+      let t : ClockReading := ⟨y, mo, d, h, mi, s⟩
+      pure (fmtAmzDate t, fmtDate t)
+    | _ => throw "clock: six numbers expected"
+  | .error _ => pure (← getBytes j "amz_date", ← getBytes j "date")
+
+def getInputs (j : Json) : Except String Inputs := do
+  let (amz, date) ← getDates j
+  pure { method := ← getBytes j "method", host := ← getBytes j "host", scheme := ← getBytes j "scheme",
+         path := ← getBytes j "path", query := ← getQuery j, payloadDigest := ← getBytes j "payload_digest",
+         amzDate := amz, date := date, region := ← getBytes j "region",
+         keyId := ← getBytes j "key_id", secret := ← getBytes j "secret" }
+
+def getWire (j : Json) : Except String Wire := do
+  pure { method := ← getBytes j "method", path := ← getBytes j "path", query := ← getPairs j "query",
+         host := ← getBytes j "host", contentSha := ← getBytes j "content_sha", amzDate := ← getBytes j "amz_date",
+         authorization := [] }
 
 /-- requests `sigv4.*` (see DESIGN.md Appendix A) -/
 def handleSigV4 (op : String) (j : Json) : Except String Json := do
   match op with
+  | "sigv4.gen" =>
+    pure (Json.mkObj [
+      ("path_safe", jhex Gen.s3PathSafeB), ("path_safe_str", Json.str Gen.s3PathSafe),
+      ("query_via_quote_plus", Json.bool Gen.s3QueryViaQuotePlus), ("query_via_str", Json.str Gen.s3QueryQuoteVia),
+      ("query_safe", jhex Gen.s3QuerySafeB), ("query_safe_str", Json.str Gen.s3QuerySafe),
+      ("query_sorted", Json.bool Gen.s3QuerySortedB), ("query_sorted_base", Json.bool Gen.s3QuerySorted),
+      ("signed_headers", Json.arr (Gen.s3SignedHeadersB.map jhex).toArray),
+      ("signed_headers_str", Json.arr (Gen.s3SignedHeaders.map Json.str).toArray),
+      ("signed_header_sources", natArr Gen.s3SignedHeaderSources),
+      ("canonical_request_order", natArr Gen.s3CanonicalRequestOrder),
+      ("string_to_sign_order", natArr Gen.s3StringToSignOrder),
+      ("scope_order", natArr Gen.s3ScopeOrder), ("key_chain", natArr Gen.s3KeyChain),
+      ("algorithm", jhex Gen.s3Algorithm), ("terminator", jhex Gen.s3Terminator), ("key_prefix", jhex Gen.s3KeyPrefix),
+      ("key_terminator", jhex Gen.s3KeyTerminator), ("service", jhex Gen.s3Service),
+      ("list_keys", Json.arr #[jhex Gen.s3ListTypeKey, jhex Gen.s3ListTypeValue, jhex Gen.s3TokenKey, jhex Gen.s3PrefixKey]),
+      ("stream_rewind_to", match Gen.s3StreamRewindTo with | some p => jnat p | none => Json.null),
+      ("shape_flags", Json.mkObj [
+        ("signed_strings_are_sent_strings", Json.bool Gen.s3SignedStringsAreSentStrings),
+        ("canonical_headers_shape", Json.bool Gen.s3CanonicalHeadersShape),
+        ("key_chain_standard", Json.bool Gen.s3KeyChainStandard),
+        ("clock_standard", Json.bool Gen.s3ClockStandard),
+        ("stream_digest_shape", Json.bool Gen.s3StreamDigestShape),
+        ("upload_shape", Json.bool Gen.s3UploadShape),
+        ("list_shape", Json.bool Gen.s3ListShape)])])
+  | "sigv4.encode" =>
+    let s ← getBytes j "s"
+    let safe ← getBytes j "safe"
+    pure (Json.mkObj [
+      ("aws_path", jhex (awsUriEncode false s)), ("aws_query", jhex (awsUriEncode true s)),
+      ("quote", jhex (pyQuote safe s)), ("quote_plus", jhex (pyQuotePlus safe s)),
+      ("client_path", jhex (clientPath s)), ("client_query", jhex (queryQuote s)),
+      ("decode", jhex (pctDecode false s)), ("decode_plus", jhex (pctDecode true s)),
+      ("httpx_path", jhex (httpxPath s))])
+  | "sigv4.host" =>
+    let scheme ← getBytes j "scheme"
+    let host ← getBytes j "host"
+    pure (Json.mkObj [("host", jhex (httpxHost scheme host)), ("normal", Json.bool (hostIsNormal scheme host))])
+  | "sigv4.list_query" =>
+    let pfx ← getBytes j "prefix"
+    let tok ← getOptBytes j "token"
+    pure (Json.mkObj [("query", jpairs (listQuery tok pfx))])
+  | "sigv4.sign" =>
+    let i ← getInputs j
+    let c := realCrypto
+    let w := toWire c i
+    let cr := clientCanonicalRequest i
+    let scope := scopeOf i.date i.region
+    pure (Json.mkObj [
+      ("path", jhex (clientPath i.path)), ("query_string", jhex (clientQueryString i.query)),
+      ("canonical_request", jhex cr), ("scope", jhex scope),
+      ("string_to_sign", jhex (stringToSignOf c i.amzDate scope cr)),
+      ("signature", jhex (clientSignature c i)), ("authorization", jhex (clientAuthorization c i)),
+      ("wire_target", jhex w.target), ("wire_host", jhex w.host), ("wire_content_sha", jhex w.contentSha),
+      ("wire_amz_date", jhex w.amzDate), ("wire_query", jpairs w.query),
+      ("ref_canonical_request", jhex (refCanonicalRequest true w)),
+      ("ref_signature", jhex (refSignature c true i.secret i.region w)),
+      ("ref_signature_plus_literal", jhex (refSignature c false i.secret i.region w)),
+      ("dot_segments", Json.bool (hasDotSegment (clientPath i.path))),
+      ("host_normal", Json.bool (hostIsNormal i.scheme i.host))])
+  | "sigv4.ref" =>
+    let w ← getWire j
+    let secret ← getBytes j "secret"
+    let region ← getBytes j "region"
+    let c := realCrypto
+    pure (Json.mkObj [
+      ("canonical_request", jhex (refCanonicalRequest true w)),
+      ("signature", jhex (refSignature c true secret region w)),
+      ("signature_plus_literal", jhex (refSignature c false secret region w))])
+  | "sigv4.hash" =>
+    let m ← getBytes j "msg"
+    let k ← getBytes j "key"
+    pure (Json.mkObj [("sha256", jhex (Sha256.sha256 m)), ("hmac", jhex (Sha256.hmac k m))])
+  | "sigv4.payload" =>
+    let data ← getBytes j "data"
+    let c : Crypto := { realCrypto with sha := fun m => m }   -- identity "hash": the harness hashes both sides itself
+    match (← getStr j "kind") with
+    | "bytes" =>
+      let p := uploadBytes c data
+      pure (Json.mkObj [("digest_of", jhex p.declaredDigest), ("length", jnat p.declaredLength), ("body", jhex p.body)])
+    | "stream" =>
+      let p := uploadStream c ⟨data, ← getNat j "pos"⟩ (← getNat j "length") (← getNat j "chunk")
+      pure (Json.mkObj [("digest_of", jhex p.declaredDigest), ("length", jnat p.declaredLength), ("body", jhex p.body)])
+    | k => throw s!"unknown payload kind {k}"
   | _ => throw s!"unknown op {op}"
 
 end Driver
